@@ -28,10 +28,17 @@ Init ==
     /\ start \in Starts
     /\ xk \in Int /\ xk >= 0 /\ xk <= now.d * 86400 + now.s        \* an explicit start is not later than now and not before 1970
     /\ depth \in Int /\ depth >= -100000 /\ depth <= 100000000
-    /\ mup \in {Absent, 0 - 1, 0, 1, 2, 4, 7, 8, 30, 3600}
+    /\ mup \in {Absent, 0, 4}
     /\ refSegDur = 960
     /\ refTs = 240
 Next == UNCHANGED <<now, start, xk, depth, mup, refSegDur, refTs>>
 Obs == Impl(now, start, xk, depth, mup, refSegDur, refTs)
-Inv == AllSingle(now, start, Obs)
+\* all single-state clauses but C08_PublishQuantised (its `off.s % r.mup` with a symbolic period does not return from Z3 in useful
+\* time; it stays with TLC's grid and the traces)
+Inv == /\ C08_AstNotFuture(now, Obs)
+       /\ C08_PublishInRangeWholeSecond(now, Obs)
+       /\ C08_TsbdRange(now, Obs)
+       /\ C08_FirstAvailable(now, Obs)
+       /\ C08_SymbolicAtLeastOneMinuteOld(now, start, Obs)
+       /\ C08_NowFollowsAt60(now, start, Obs)
 =============================================================================
